@@ -186,6 +186,16 @@ pub mod openssl {
                         r matches Ok(g) ==> g.curve@ == Some(n) { unimplemented!() }
             #[verifier::external_body]
             pub fn curve_name(&self) -> (r: Option<Nid>) ensures r == self.curve@ { unimplemented!() }
+            // bit length of the field (EC_GROUP_get_degree): 256 / 384 / 521 for the three supported curves
+            #[verifier::external_body]
+            pub fn degree(&self) -> (r: u32)
+                ensures self.curve@ == Some(Nid::X9_62_PRIME256V1) ==> r == 256, self.curve@ == Some(Nid::SECP384R1) ==> r == 384, self.curve@ == Some(Nid::SECP521R1) ==> r == 521
+            { unimplemented!() }
+            // bit length of the group order
+            #[verifier::external_body]
+            pub fn order_bits(&self) -> (r: u32)
+                ensures self.curve@ == Some(Nid::X9_62_PRIME256V1) ==> r == 256, self.curve@ == Some(Nid::SECP384R1) ==> r == 384, self.curve@ == Some(Nid::SECP521R1) ==> r == 521
+            { unimplemented!() }
         }
         impl<T> EcKey<T> {
             #[verifier::external_body] pub fn group(&self) -> (r: &EcGroupRef) ensures r.curve == self.curve { unimplemented!() }
